@@ -358,5 +358,52 @@ pub fn find_vertices(tracks: Vec<Track>) -> VertexingResult {
     )
 }
 
+// Verification hooks (read-only wrappers and plain constructors; compiled only with
+// `--cfg alpha_g_verif`). Helix parameters are [x0, y0, z0, r, phi0, h] in meters/radians.
+#[cfg(alpha_g_verif)]
+pub mod verif {
+    use super::*;
+    pub use super::track_finding::{verif_cluster_spacepoints, verif_get_bins, verif_largest_cluster};
+
+    fn helix(p: [f64; 6]) -> Helix {
+        Helix {
+            x0: Length::new::<meter>(p[0]),
+            y0: Length::new::<meter>(p[1]),
+            z0: Length::new::<meter>(p[2]),
+            r: Length::new::<meter>(p[3]),
+            phi0: Angle::new::<radian>(p[4]),
+            h: Length::new::<meter>(p[5]),
+        }
+    }
+    pub fn cluster_from_points(points: Vec<SpacePoint>) -> Cluster {
+        Cluster(points)
+    }
+    pub fn track_from_params(p: [f64; 6], t_inner: f64, t_outer: f64) -> Track {
+        Track {
+            helix: helix(p),
+            t_inner,
+            t_outer,
+        }
+    }
+    pub fn track_params(track: &Track) -> [f64; 6] {
+        let h = track.helix;
+        [
+            h.x0.get::<meter>(),
+            h.y0.get::<meter>(),
+            h.z0.get::<meter>(),
+            h.r.get::<meter>(),
+            h.phi0.get::<radian>(),
+            h.h.get::<meter>(),
+        ]
+    }
+    pub fn closest_t(p: [f64; 6], point: SpacePoint, tolerance: f64, max_num_iter: usize) -> f64 {
+        helix(p).closest_t(point, tolerance, max_num_iter)
+    }
+    pub fn helix_at(p: [f64; 6], t: f64) -> Coordinate {
+        helix(p).at(t)
+    }
+}
+
+
 #[cfg(test)]
 mod tests;
